@@ -32,6 +32,68 @@ pub(crate) fn ty(p: &mut Parser) {
     }
 }
 
+/// Parse a type as the root of a standalone syntax tree, for [`Parser::parse_type`].
+///
+/// A standalone tree has no parent node to hold leading ignored tokens, lexer errors, or
+/// unexpected tokens after the type, so they all go inside the root type node. The root node is
+/// started before any token is taken from the lexer; when no type can be found at all, the root
+/// is a `NAMED_TYPE` node without a name.
+pub(crate) fn root_ty(p: &mut Parser) {
+    let checkpoint = p.checkpoint_node();
+    let first_kind = p
+        .lexer
+        .clone()
+        .filter_map(Result::ok)
+        .map(|token| token.kind())
+        .find(|kind| {
+            !matches!(
+                kind,
+                TokenKind::Whitespace | TokenKind::Comment | TokenKind::Comma
+            )
+        });
+    let guard = if first_kind == Some(T!['[']) {
+        let guard = p.start_node(SyntaxKind::LIST_TYPE);
+        p.bump(S!['[']);
+
+        if p.recursion_limit.check_and_increment() {
+            p.limit_err("parser recursion limit reached");
+            return;
+        }
+        let result = parse(p);
+        p.recursion_limit.decrement();
+
+        if let Err(Some(token)) = result {
+            p.err_at_token(&token, "expected item type");
+        }
+        p.expect(T![']'], S![']']);
+        guard
+    } else {
+        let guard = p.start_node(SyntaxKind::NAMED_TYPE);
+        if let Some(TokenKind::Name) = p.peek() {
+            let _name_node_guard = p.start_node(SyntaxKind::NAME);
+
+            let token = p.pop();
+            name::validate_name(token.data(), p);
+            p.push_token(SyntaxKind::IDENT, token);
+        } else {
+            p.err("expected a type");
+        }
+        guard
+    };
+
+    p.skip_ignored();
+
+    if let Some(T![!]) = p.peek() {
+        guard.finish_node();
+        let _guard = checkpoint.wrap_node(SyntaxKind::NON_NULL_TYPE);
+        p.eat(S![!]);
+        p.expect_end_of_input();
+    } else {
+        p.expect_end_of_input();
+        guard.finish_node();
+    }
+}
+
 /// Returns the type on success, or the TokenKind that caused an error.
 ///
 /// When errors occur deeper inside nested types like lists, this function
